@@ -95,8 +95,42 @@ def sources(tier, seed, ctx):
     w = {'connect': 14, 'add_gate': 8, 'add_input': 3, 'replace_subcircuit': 0.3, 'copy': 1.5}
     for j in range(nrand):
         srcs.append({'k': 'rand', 'seed': rng.randrange(10**9), 'n': rng.randint(4, 10), 'w': w, 'from': 'rand'})
+    srcs += _scripted(tier)
     ctx['gen_note'] = '; '.join(note)
     return srcs
+
+
+def _scripted(tier):
+    """Wide interfaces (more connector pairs than any threshold an implementation may switch containers at) and the empty label
+    as a connector."""
+    rec = lambda gates, ins, outs: {'g': {l: {'t': t, 'o': list(o)} for l, t, o in gates}, 'ord': [g[0] for g in gates], 'i': list(ins), 'o': list(outs), 'b': {}}
+    out = []
+    for width in ([33, 40] if tier == 'quick' else [31, 32, 33, 40, 70, 130]):
+        # base: `width` inputs b0.., a chain that reads them in order (so which gate lands on which input matters);
+        # attached: 3 inputs, `width` different gates over them (type and operand order cycle), connected position by position
+        bins = [f'b{j}' for j in range(width)]
+        bg = [(l, 'INPUT', []) for l in bins]
+        prev = bins[0]
+        for j in range(1, width):
+            bg.append((f'u{j}', ['GT', 'XOR', 'AND', 'LT', 'OR'][j % 5], [prev, bins[j]]))
+            prev = f'u{j}'
+        base = rec(bg, bins, [prev, f'u{width // 2}'])
+        og = [('i0', 'INPUT', []), ('i1', 'INPUT', []), ('i2', 'INPUT', [])]
+        for j in range(width):
+            a, b = ['i0', 'i1', 'i2'][j % 3], ['i0', 'i1', 'i2'][(j // 3 + 1 + j) % 3]
+            og.append((f'v{j}', ['AND', 'OR', 'XOR', 'NAND', 'GT', 'NOR', 'LEQ'][j % 7], [a, b] if a != b else [a, ['i0', 'i1', 'i2'][(j + 2) % 3]]))
+        other = rec(og, ['i0', 'i1', 'i2'], [f'v{j}' for j in range(width)])
+        for via in ('connect_circuit', 'connect_right'):
+            out.append({'k': 'wide', 'base': base, 'other': other, 'tc': list(bins), 'oc': [f'v{j}' for j in range(width)], 'via': via, 'from': 'scripted'})
+    # the empty label is a label: as a base input / base gate used as connector, in every direction
+    e_base = rec([('', 'INPUT', []), ('b', 'INPUT', []), ('g', 'AND', ['', 'b'])], ['', 'b'], ['g'])
+    e_gate = rec([('a', 'INPUT', []), ('b', 'INPUT', []), ('', 'XOR', ['a', 'b']), ('g', 'OR', ['', 'a'])], ['a', 'b'], ['g', ''])
+    oth = rec([('s', 'INPUT', []), ('t', 'INPUT', []), ('m', 'NOR', ['s', 't'])], ['s', 't'], ['m'])
+    out.append({'k': 'hist', 'init': e_base, 'from': 'scripted', 'acts': [{'a': 'connect', 'other': oth, 'tc': [''], 'oc': ['m'], 'right': True, 'name': 'e', 'pfx': True, 'via': 'connect_circuit'}]})
+    out.append({'k': 'hist', 'init': e_base, 'from': 'scripted', 'acts': [{'a': 'connect', 'other': oth, 'tc': ['', 'b'], 'oc': ['s', 't'], 'right': False, 'name': 'e', 'pfx': True, 'via': 'connect_circuit'}]})
+    out.append({'k': 'hist', 'init': e_gate, 'from': 'scripted', 'acts': [{'a': 'connect', 'other': oth, 'tc': ['', 'g'], 'oc': ['s', 't'], 'right': False, 'name': 'e', 'pfx': True, 'via': 'connect_circuit'}]})
+    out.append({'k': 'hist', 'init': e_gate, 'from': 'scripted', 'acts': [{'a': 'connect', 'other': oth, 'tc': ['', 'a'], 'oc': ['s', 't'], 'right': False, 'name': '', 'pfx': True, 'via': 'connect_left'}]})
+    return out
 
 
 def probes():
@@ -104,14 +138,35 @@ def probes():
 
 
 def record(src):
+    if src['k'] == 'wide':
+        from .. import hist
+        from ..project import project as _p
+        c, other = hist.build(src['base']), hist.build(src['other'])
+        case = {'kind': 'connectwide', 'base': _p(c, users=False, blocks=False), 'other': _p(other, users=False, blocks=False),
+                'pairs': [[a, b] for a, b in zip(src['tc'], src['oc'])], 'exc': '', 'src': src}
+        try:
+            if src['via'] == 'connect_circuit':
+                c.connect_circuit(other, list(src['tc']), list(src['oc']), right_connect=True, name='wide', add_prefix=True)
+            else:
+                c.connect_right(other, list(src['oc']))
+            case['res'] = _p(c, users=False, blocks=False)
+            case['res_order'] = [g.label for g in c.top_sort(inverse=True)]
+        except Exception as e:
+            case['exc'] = type(e).__name__
+            case['res'], case['res_order'] = case['base'], case['base']['ord']
+        return case
     return H.record_hist(src, PROP)
 
 
 def nontrivial(case):
+    if case['kind'] == 'connectwide':
+        return True
     return any(s['act']['a'] == 'connect' and s['ret'] == 'ok' and (s['act']['tc'] or s['act']['name']) for s in case['steps'])
 
 
 def features(case):
+    if case['kind'] == 'connectwide':
+        return {'wide-right-connection'}
     seen = H.step_features(case, {'connect'})
     for s in case['steps']:
         a = s['act']
